@@ -12,52 +12,49 @@ Theorem backoff_table :
 Proof. exact Proofs.backoff_table. Qed.
 Print Assumptions backoff_table.
 
+(* at most one announce per tracker in flight; a newer event replaces, never duplicates *)
 Theorem one_in_flight : forall t0 groups ops r, In r (log (run (init t0 groups) ops)) ->
   t_en (r_pre r) = true /\ r_repl r = t_busy (r_pre r) /\
   (t_busy (r_pre r) = true -> r_ev r <> EvNone /\ r_ev r <> t_ev (r_pre r)).
 Proof. exact Proofs.one_in_flight. Qed.
 Print Assumptions one_in_flight.
 
+(* every request sent while the controller holds a pending start carries STARTED (all call sites) *)
 Theorem started_carried : forall t0 groups ops r, In r (log (run (init t0 groups) ops)) ->
-  f_start (r_fl r) = true -> r_src r <> SrcUpdate -> r_ev r = EvStarted.
+  f_start (r_fl r) = true -> r_ev r = EvStarted.
 Proof. exact Proofs.started_carried. Qed.
 Print Assumptions started_carried.
 
-Theorem start_flag_persists : forall s o,
-  f_start (fl s) = true -> f_start (fl (step s o)) = true \/
-  match o with
-  | OSendStop | OSendCompleted | OStop false => True
-  | OSuccess id _ _ => f_active (fl s) = true /\ exists t, find_id (trs s) id = Some t /\ t_busy t = true
-  | _ => False
-  end.
-Proof. exact Proofs.start_flag_persists. Qed.
-Print Assumptions start_flag_persists.
-
-Theorem started_carried_refuted :
-  exists t0 groups ops r, In r (log (run (init t0 groups) ops)) /\
-    f_start (r_fl r) = true /\ r_ev r = EvNone.
-Proof. exact Proofs.started_carried_refuted. Qed.
-Print Assumptions started_carried_refuted.
+(* trace form: from send_start_event (or Download::start) on, as long as no step [clears] the
+   obligation (client stop/completed, or an active controller receiving the success of a request
+   that carried STARTED), every request handed to a worker carries STARTED *)
+Theorem started_carried_trace : forall t0 groups ops1 o ops2,
+  o = OSendStart \/ o = OStart false ->
+  let s0 := run (init t0 groups) ops1 in
+  pending_run EvStarted (step s0 o) ops2 ->
+  exists new, log (run (step s0 o) ops2) = new ++ log s0 /\ Forall (fun r => r_ev r = EvStarted) new.
+Proof. exact Proofs.started_carried_trace. Qed.
+Print Assumptions started_carried_trace.
 
 Theorem completed_carried : forall t0 groups ops r, In r (log (run (init t0 groups) ops)) ->
-  f_completed (r_fl r) = true -> r_src r <> SrcUpdate -> r_ev r = EvCompleted.
+  f_completed (r_fl r) = true -> r_ev r = EvCompleted.
 Proof. exact Proofs.completed_carried. Qed.
 Print Assumptions completed_carried.
 
-Theorem completed_carried_refuted :
-  exists t0 groups ops r, In r (log (run (init t0 groups) ops)) /\
-    f_completed (r_fl r) = true /\ r_ev r = EvNone.
-Proof. exact Proofs.completed_carried_refuted. Qed.
-Print Assumptions completed_carried_refuted.
+Theorem completed_carried_trace : forall t0 groups ops1 ops2,
+  let s0 := run (init t0 groups) ops1 in
+  pending_run EvCompleted (step s0 OSendCompleted) ops2 ->
+  exists new, log (run (step s0 OSendCompleted) ops2) = new ++ log s0 /\ Forall (fun r => r_ev r = EvCompleted) new.
+Proof. exact Proofs.completed_carried_trace. Qed.
+Print Assumptions completed_carried_trace.
 
-(* partial: missing is the invariant that, when send_stop_event is always followed by disable
-   (op OStop, the only use in download.cc), the second disjunct cannot occur *)
-Theorem stopped_only_on_stop_and_in_use_partial : forall t0 groups ops r, In r (log (run (init t0 groups) ops)) ->
-  r_ev r = EvStopped ->
-  (r_src r = SrcStop /\ is_in_use (r_pre r) = true) \/
-  (r_src r = SrcTimer /\ f_stop (r_fl r) = true /\ f_active (r_fl r) = true).
-Proof. exact Proofs.stopped_sites. Qed.
-Print Assumptions stopped_only_on_stop_and_in_use_partial.
+(* STOPPED only from send_stop_event and only to trackers that were successfully used, for every
+   op list in which send_stop_event is always followed by disable (op OStop = Download::stop) *)
+Theorem stopped_only_on_stop_and_in_use : forall t0 groups ops r,
+  Forall client_level ops -> In r (log (run (init t0 groups) ops)) ->
+  r_ev r = EvStopped -> r_src r = SrcStop /\ is_in_use (r_pre r) = true.
+Proof. exact Proofs.stopped_only_on_stop_and_in_use. Qed.
+Print Assumptions stopped_only_on_stop_and_in_use.
 
 Theorem backoff_respected : forall t0 groups ops r, In r (log (run (init t0 groups) ops)) ->
   r_src r = SrcTimer -> t_fc (r_pre r) <> 0 ->
@@ -65,38 +62,53 @@ Theorem backoff_respected : forall t0 groups ops r, In r (log (run (init t0 grou
 Proof. exact Proofs.backoff_respected. Qed.
 Print Assumptions backoff_respected.
 
-Theorem success_interval_respected : forall t0 groups ops r, In r (log (run (init t0 groups) ops)) ->
+(* unconditional (all modes, all interval values) *)
+Theorem min_interval_respected : forall t0 groups ops r, In r (log (run (init t0 groups) ops)) ->
   r_src r = SrcTimer -> t_fc (r_pre r) = 0 -> t_sc (r_pre r) <> 0 ->
-  t_stl (r_pre r) + Z.min (t_ni (r_pre r)) (Z.max (t_mi (r_pre r)) promisc_floor) <= r_time r / usec.
-Proof. exact Proofs.success_interval_respected. Qed.
-Print Assumptions success_interval_respected.
-
-Theorem min_interval_respected_when_sane : forall t0 groups ops r, In r (log (run (init t0 groups) ops)) ->
-  r_src r = SrcTimer -> t_fc (r_pre r) = 0 -> t_sc (r_pre r) <> 0 ->
-  t_mi (r_pre r) <= t_ni (r_pre r) ->
   t_stl (r_pre r) + t_mi (r_pre r) <= r_time r / usec.
-Proof. exact Proofs.min_interval_respected_when_sane. Qed.
-Print Assumptions min_interval_respected_when_sane.
+Proof. exact Proofs.min_interval_respected. Qed.
+Print Assumptions min_interval_respected.
 
-Theorem min_interval_respected_refuted :
-  exists t0 groups ops r, In r (log (run (init t0 groups) ops)) /\
-    r_src r = SrcTimer /\ t_fc (r_pre r) = 0 /\ t_sc (r_pre r) <> 0 /\
-    t_mi (r_pre r) <= max_min /\
-    r_time r / usec < t_stl (r_pre r) + t_mi (r_pre r).
-Proof. exact Proofs.min_interval_respected_refuted. Qed.
-Print Assumptions min_interval_respected_refuted.
+Theorem normal_interval_respected : forall t0 groups ops r, In r (log (run (init t0 groups) ops)) ->
+  r_src r = SrcTimer -> f_promisc (r_fl r) = false -> f_requesting (r_fl r) = false ->
+  t_fc (r_pre r) = 0 -> t_sc (r_pre r) <> 0 ->
+  t_stl (r_pre r) + t_ni (r_pre r) <= r_time r / usec.
+Proof. exact Proofs.normal_interval_respected. Qed.
+Print Assumptions normal_interval_respected.
 
-(* partial: the setters clamp; missing is the (easy) state invariant that every reachable
-   tracker's intervals are initial values or setter results *)
-Theorem interval_clamps_partial : forall v,
-  min_normal <= set_normal_interval v <= max_normal /\ min_min <= set_min_interval v <= max_min.
+(* every tracker of every reachable state has its intervals inside the clamps *)
+Theorem interval_clamps : forall t0 groups ops t, In t (trs (run (init t0 groups) ops)) ->
+  min_normal <= t_ni t <= max_normal /\ min_min <= t_mi t <= max_min.
 Proof. exact Proofs.interval_clamps. Qed.
-Print Assumptions interval_clamps_partial.
+Print Assumptions interval_clamps.
 
-Theorem tier_order_refuted :
+(* tier order, what holds: a timer-driven request in normal mode goes to a tracker of a later
+   group only if every enabled never-failed tracker u of an earlier group is in flight (finding
+   tier-skipped-while-in-flight) or was passed over because the first requestable tracker has
+   failed and the chosen tracker's next-activity time is not later than u's (finding
+   tier-skipped-not-due) *)
+Theorem tier_order : forall t0 groups ops r, In r (log (run (init t0 groups) ops)) ->
+  r_src r = SrcTimer ->
+  f_promisc (r_fl r) = true \/ f_requesting (r_fl r) = true \/
+  (forall u, In u (r_trs r) -> (t_group u < t_group (r_pre r))%nat -> t_en u = true -> t_fc u = 0 ->
+     t_busy u = true \/
+     (activity_time_next (r_pre r) <= activity_time_next u /\
+      exists p, In p (r_trs r) /\ can_request_state p = true /\ t_fc p <> 0)).
+Proof. exact Proofs.tier_order. Qed.
+Print Assumptions tier_order.
+
+Theorem tier_order_strict_refuted :
   exists t0 groups ops r u, In r (log (run (init t0 groups) ops)) /\
     r_src r = SrcTimer /\ f_promisc (r_fl r) = false /\ f_requesting (r_fl r) = false /\
     In u (r_trs r) /\ Nat.ltb (t_group u) (t_group (r_pre r)) = true /\
     t_en u = true /\ t_busy u = false /\ t_fc u = 0.
-Proof. exact Proofs.tier_order_refuted. Qed.
-Print Assumptions tier_order_refuted.
+Proof. exact Proofs.tier_order_strict_refuted. Qed.
+Print Assumptions tier_order_strict_refuted.
+
+(* the figures of every request are those of the download info at the step that sent it *)
+Theorem params_match : forall t0 groups ops o,
+  let s := run (init t0 groups) ops in
+  exists new, log (step s o) = new ++ log s /\
+    Forall (fun r => r_up r = Z.max (s_up s) 0 /\ r_comp r = Z.max (s_comp s) 0 /\ r_left r = s_left s) new.
+Proof. exact Proofs.params_match. Qed.
+Print Assumptions params_match.
